@@ -333,12 +333,24 @@ pub fn check_front_agreement(c: &Case, obs: &mut Obs) -> PResult {
 /// the success-ratio front-end on populations beyond 2^50: the count it implies is round(ratio * n); the exact product
 /// and its f64 rounding may round differently at a tie, so either reading is accepted — nothing else
 pub fn ratio_big_case(c: &Case, obs: &mut Obs) -> PResult {
+    ratio_case(&RatioCase { n: c.n, k: c.k, ratio: crate::fl::X(c.k as f64 / c.n as f64), conf: c.conf }, obs)
+}
+/// an arbitrary success ratio (not necessarily of the form k / n, possibly a little above 1)
+#[derive(Clone, Debug, Serialize, Deserialize)]
+pub struct RatioCase {
+    pub n: u64,
+    /// the count the ratio was derived from (for the message only)
+    pub k: u64,
+    pub ratio: crate::fl::X,
+    pub conf: Conf,
+}
+pub fn ratio_case(c: &RatioCase, obs: &mut Obs) -> PResult {
     use crate::exact::Dy;
     use num_bigint::BigInt;
     use num_traits::{Signed, ToPrimitive};
     let conf = c.conf.get();
     let n = c.n as usize;
-    let ratio = c.k as f64 / c.n as f64;
+    let ratio = c.ratio.0;
     // exact product ratio * n, rounded half away from zero
     let p = Dy::from_f64(ratio);
     let prod = p.num.clone() * BigInt::from(c.n); // times 2^exp
@@ -352,6 +364,10 @@ pub fn ratio_big_case(c: &Case, obs: &mut Obs) -> PResult {
     let k_float = (ratio * c.n as f64).round() as u64;
     obs.eval();
     let got = call(|| proportion::ci_wilson_ratio(conf, n, ratio));
+    if !(ratio > 0.0) {
+        obs.exclude("ratio <= 0 (outside the ratio form's own domain)");
+        return Ok(());
+    }
     if ratio == 0.0 && matches!(got, Out::Err(_)) {
         // a ratio of exactly 0 is outside the documented domain of the ratio form (NonPositiveValue)
         obs.exclude("ratio 0 (rejected by the ratio form itself)");
@@ -372,8 +388,8 @@ pub fn ratio_big_case(c: &Case, obs: &mut Obs) -> PResult {
         }
     });
     ensure!(ok, "C02/ci_wilson_ratio/differs_from_counts", "ci_wilson_ratio(n={}, ratio={ratio:e} = {}/n, {:?}) = {} agrees with ci_wilson for neither reading of round(ratio n): {candidates:?}", c.n, c.k, c.conf, describe(&got));
-    obs.class("front/ci_wilson_ratio/huge-n");
-    obs.nontrivial(&("ratio_big", c.n, c.k, c.conf.kind, c.conf.l().to_bits()));
+    obs.class(if c.n > (1u64 << 50) { "front/ci_wilson_ratio/huge-n" } else if ratio > 1.0 { "front/ci_wilson_ratio/ratio>1" } else { "front/ci_wilson_ratio/arbitrary-ratio" });
+    obs.nontrivial(&("ratio", c.n, ratio.to_bits(), c.conf.kind, c.conf.l().to_bits()));
     Ok(())
 }
 
@@ -507,6 +523,19 @@ pub fn run(run: &mut Run) {
         });
         run.prop("ratio_big", run.tier.pick(20_000, 1_000_000), s, ratio_big_case);
         run.require_class("front/ci_wilson_ratio/huge-n");
+        // arbitrary ratios on small and moderate populations: the implied count is round(ratio n), also for ratios a
+        // little above 1 (which still round to n, or to more than n)
+        let s = (1u64..400, 0u32..=1_300_000, crate::gen::conf(), 0u8..4).prop_map(|(n, r, conf, mode)| {
+            let ratio = match mode {
+                0 => r as f64 / 1_000_000.0,
+                1 => 1.0 + (r as f64 / 1_300_000.0) * 0.75 / n as f64,
+                2 => 1.0 + f64::EPSILON * (1 + r % 4) as f64,
+                _ => ((r as u64 % (n + 2)) as f64 + 0.5 * (r % 3) as f64 - 0.5) / n as f64,
+            };
+            RatioCase { n, k: 0, ratio: crate::fl::X(ratio), conf }
+        });
+        run.prop("ratio_any", run.tier.pick(40_000, 1_500_000), s, ratio_case);
+        run.require_class("front/ci_wilson_ratio/ratio>1");
     }
     run.prop("random_big", cases, s, |c, obs| {
         obs.nontrivial(&(c.n, c.k, c.conf.kind, c.conf.l().to_bits(), c.front));
@@ -536,6 +565,7 @@ pub fn replay(sub: &str, v: &Value, obs: &mut Obs) -> Option<PResult> {
         "history" => crate::props::history::case(&de(v), obs),
         "grid" | "random_big" | "random_front" => case(&de(v), obs),
         "ratio_big" => ratio_big_case(&de(v), obs),
+        "ratio_any" => ratio_case(&de(v), obs),
         "front" => check_front_agreement(&de(v), obs),
         "is_significant" => is_significant_case(&de(v), obs),
         _ => return None,
